@@ -22,6 +22,7 @@
 package main
 
 import (
+	"bufio"
 	"bytes"
 	"crypto/sha1"
 	"encoding/hex"
@@ -30,6 +31,7 @@ import (
 	"os"
 	"path/filepath"
 	"strconv"
+	"strings"
 	"time"
 
 	"wa-lang.org/wa/api"
@@ -37,6 +39,9 @@ import (
 	"wa-lang.org/wa/internal/wazero"
 	"wa-lang.org/wa/internal/zz_verif/vh"
 )
+
+// baselineLimit bounds the un-instrumented run (every workload program finishes in seconds).
+const baselineLimit = 240 * time.Second
 
 type result struct {
 	Status    string                 `json:"status"` // ok | build-error | rewrite-error | asm-error | run-error
@@ -47,6 +52,7 @@ type result struct {
 	Modes     map[string]*modeResult `json:"modes,omitempty"`
 	Rewritten []string               `json:"rewritten,omitempty"`
 	Ms        map[string]int64       `json:"ms,omitempty"`
+	ExitAfter bool                   `json:"exit_after,omitempty"` // an instrumented run did not terminate: the process exits after this line
 }
 
 type modeResult struct {
@@ -105,7 +111,24 @@ func runProgram(file, traceFile string, maxEvents int) (res result) {
 		return result{Status: "asm-error", Error: "baseline: " + err.Error()}
 	}
 	lap("asm0")
-	stdout, stderr, berr := wazero.RunWasm(vname, wasm0, fset, mainFunc)
+	type baseRes struct {
+		stdout, stderr []byte
+		err            error
+	}
+	bch := make(chan baseRes, 1)
+	go func() {
+		o, e, err := wazero.RunWasm(vname, wasm0, fset, mainFunc)
+		bch <- baseRes{o, e, err}
+	}()
+	var stdout, stderr []byte
+	var berr error
+	select {
+	case br := <-bch:
+		stdout, stderr, berr = br.stdout, br.stderr, br.err
+	case <-time.After(baselineLimit):
+		// outside C11's domain (the program itself does not terminate in time); the process cannot cancel the run
+		return result{Status: "baseline-timeout", Error: fmt.Sprintf("un-instrumented run did not finish within %v", baselineLimit), ExitAfter: true}
+	}
 	lap("run0")
 	base := append(append([]byte{}, stdout...), stderr...)
 	res.OutLines = bytes.Count(base, []byte("\n"))
@@ -136,7 +159,23 @@ func runProgram(file, traceFile string, maxEvents int) (res result) {
 				return
 			}
 		}
-		rerr := wazero.VerifC11Run(vname, wasm1, fset, mainFunc, tr, hostModuleName, tr.register, tr.atExit)
+		// the vendored wazero cannot cancel a running module: run it in a goroutine and give up (the whole process
+		// exits after reporting) when it takes far longer than the un-instrumented run
+		limit := 60*time.Second + 40*time.Duration(res.Ms["run0"])*time.Millisecond
+		done := make(chan error, 1)
+		go func() {
+			done <- wazero.VerifC11Run(vname, wasm1, fset, mainFunc, tr, hostModuleName, tr.register, tr.atExit)
+		}()
+		var rerr error
+		select {
+		case rerr = <-done:
+		case <-time.After(limit):
+			res.Modes[mode] = &modeResult{Err: fmt.Sprintf("timeout: no termination within %v (un-instrumented run: %d ms)", limit, res.Ms["run0"]),
+				OutDiff: "the instrumented run does not terminate", TraceEvents: -1}
+			res.Status = "ok"
+			res.ExitAfter = true
+			return
+		}
 		tr.finish()
 		mr := &modeResult{Stats: tr.st, Checkpoints: tr.cps, Violations: tr.viol, TraceEvents: tr.nEvents, TraceTrunc: tr.truncated}
 		mr.WindowLeak, mr.WindowLeakS = tr.windowLeak()
@@ -174,20 +213,31 @@ func main() {
 		os.Stdout.Write(w2)
 		return
 	}
-	vh.Loop(func(f []string, line string) string {
-		if len(f) < 2 {
-			return `{"status":"bad-op"}`
+	// own loop instead of vh.Loop: one flushed line per program, and the process must be able to exit right after a line
+	in := bufio.NewReaderSize(os.Stdin, 1<<20)
+	for {
+		line, rerr := in.ReadString('\n')
+		if f := strings.Fields(line); len(f) > 0 {
+			var r result
+			if len(f) < 2 {
+				r = result{Status: "bad-op"}
+			} else {
+				max := 400000
+				if len(f) > 2 {
+					max, _ = strconv.Atoi(f[2])
+				}
+				if s := vh.Safe(func() string { r = runProgram(f[0], f[1], max); return "" }); s != "" {
+					r = result{Status: "run-error", Error: s}
+				}
+			}
+			b, _ := json.Marshal(r)
+			fmt.Println(string(b))
+			if r.ExitAfter {
+				os.Exit(0)
+			}
 		}
-		max := 400000
-		if len(f) > 2 {
-			max, _ = strconv.Atoi(f[2])
+		if rerr != nil {
+			return
 		}
-		var r result
-		s := vh.Safe(func() string { r = runProgram(f[0], f[1], max); return "" })
-		if s != "" {
-			r = result{Status: "run-error", Error: s}
-		}
-		b, _ := json.Marshal(r)
-		return string(b)
-	})
+	}
 }
